@@ -162,6 +162,17 @@ CHECKS = {
              "write before a complete 200 reply has been read, then (only for 200) TLS wrap for wss and the WebSocket GET on the "
              "same socket with Connected.proxy set; otherwise ConnectFail and no byte of the handshake written.",
         note="The proxy's reply is complete before tunnelled traffic starts; syntax of Proxy-Authorization is not judged."),
+    "C18": dict(
+        category="exploration", design_ref="DESIGN.md section 3 / C18",
+        technique="property-based testing on a virtual clock with a record-oriented TLS model (latency must be zero) + real loopback TCP/TLS runs with a logical stall detector",
+        text="On the virtual clock (poll = 60 s) generated arrival patterns - up to 300 small frames per burst with Pings inside, or "
+             "large frames around the 16 KiB TLS record and 64 KiB receive buffer sizes - are delivered over a plain socket or a TLS "
+             "model in which decrypted-but-unread bytes are visible only through pending(); every message event and automatic Pong "
+             "must carry exactly the time its last byte became available. A sizes x record-sizes grid is enumerated. In both tiers "
+             "the real client is also run against loopback TCP and TLS servers with the real PollSelector and SelectSelector and "
+             "420 KB bursts, the server withholding traffic until acknowledged; a stall is declared only on a logical condition "
+             "(client in selector, recv count frozen, FIONREAD or SSL pending > 0), a plain time-out is 'inconclusive'.",
+        note="TLS model follows OpenSSL's SSL_read/SSL_pending contract; KQueueSelector cannot be instantiated on Linux."),
 }
 
 PENDING = {}
